@@ -102,6 +102,16 @@ Theorem C18_http_stored_hash : forall O,
 Proof. exact http_known_latest_valid. Qed.
 Print Assumptions C18_http_stored_hash.
 
+(** HTTP endpoint, in terms of the fetch outcomes alone: for all sequences of polls,
+    what is loaded from endpoint [e] is the latest valid content among what its polls
+    showed ([http_outcomes e h], oldest first: valid content / empty, not found,
+    unreachable = gone / invalid / aborted) *)
+Theorem C18_http_latest_valid : forall O h e,
+  (forall s, deletable O s = true) ->
+  active_of (http_trace O h) (Sid e) = latest_valid (accepts O) (rev (http_outcomes e h)).
+Proof. exact http_latest_valid. Qed.
+Print Assumptions C18_http_latest_valid.
+
 (** ** File system at world level: files change, notifications arrive in any order *)
 
 (** stored hash = hash of the content last applied — every history, both dispatch
@@ -131,6 +141,17 @@ Theorem C18_fs_converges_world : forall O h1 f w h2,
   = target O w (active_of (fs_trace O true h1) (Sid f)).
 Proof. exact fs_converges_world_fixed. Qed.
 Print Assumptions C18_fs_converges_world.
+
+(** nothing is applied twice: over any history — repeated, stale, out-of-order
+    notifications, initial loads — the accepted processor calls concerning a file
+    are at most as many as the file's changes (together with the fairness theorem:
+    each change is applied exactly once or superseded by a later one) *)
+Theorem C18_fs_applied_at_most_once : forall O,
+  (forall s, deletable O s = true) ->
+  forall h f,
+  length (calls_on (Sid f) (flat_map t_calls (fs_trace O true h))) <= length (filter (is_set f) h).
+Proof. exact fs_applied_at_most_once. Qed.
+Print Assumptions C18_fs_applied_at_most_once.
 
 (** the same for both dispatch variants; the pinned one needs a notification that
     is not ignored ([rereads false]) and no Remove for [f] processed while [f]
